@@ -113,6 +113,38 @@ var families = []family{
 		}
 		return msg6(v)
 	}},
+	// the same nests with a malformed innermost option (elapsed-time of one octet): the decode fails at the bottom
+	// and the error travels up through every level -- the cost of a rejected datagram is bounded like any other
+	{"relay-nesting-broken", "v6", true, func(n int) []byte {
+		m := []byte{1, 1, 2, 3, 0, 8, 0, 1, 0}
+		for len(m)+38 <= n {
+			h := make([]byte, 34)
+			h[0] = 12
+			m = append(h, tlv(9, m)...)
+		}
+		return m
+	}},
+	{"ia-nesting-broken", "v6", true, func(n int) []byte {
+		v := []byte{0, 8, 0, 1, 0}
+		for len(v)+8 <= n-4 {
+			v = tlv(4, append([]byte{0, 0, 0, 1}, v...))
+		}
+		return msg6(v)
+	}},
+	{"iaaddr-nesting-broken", "v6", true, func(n int) []byte {
+		v := []byte{0, 8, 0, 1, 0}
+		for len(v)+28 <= n-4 {
+			v = tlv(5, append(make([]byte, 24), v...))
+		}
+		return msg6(v)
+	}},
+	{"4rd-nesting-broken", "v6", true, func(n int) []byte {
+		v := []byte{0, 8, 0, 1, 0}
+		for len(v)+4 <= n-4 {
+			v = tlv(97, v)
+		}
+		return msg6(v)
+	}},
 	{"minimal-options", "v6", false, func(n int) []byte {
 		b := []byte{1, 1, 2, 3}
 		for len(b)+4 <= n {
@@ -280,7 +312,7 @@ func judge(r *mon.Rec, rp replay, c cost) bool {
 	if fb, ok := famBounds[rp.Family]; ok {
 		ka, kd, kr = fb[0], fb[1], fb[2]
 	}
-	boundAlloc := ka*n + kd*n*d + Ca
+	boundAlloc := ka*n + kd*n*d/100 + Ca
 	boundRet := kr*n + Cr
 	total := c.decAlloc + c.encAlloc
 	r.Max("alloc_per_input_byte_x100."+rp.Family, total*100/max(n, 1))
@@ -288,7 +320,7 @@ func judge(r *mon.Rec, rp replay, c cost) bool {
 	r.Max("alloc_percent_of_bound", total*100/boundAlloc)
 	r.Max("retained_percent_of_bound", c.retained*100/boundRet)
 	if total > boundAlloc {
-		r.Violate("C09:alloc-bound:"+rp.Family, fmt.Sprintf("family %s n=%d depth=%d: decode allocates %d B + re-encode %d B = %d B, bound %d*n + %d*n*d + %d = %d B", rp.Family, c.n, c.depth, c.decAlloc, c.encAlloc, total, ka, kd, Ca, boundAlloc), rp)
+		r.Violate("C09:alloc-bound:"+rp.Family, fmt.Sprintf("family %s n=%d depth=%d: decode allocates %d B + re-encode %d B = %d B, bound %d*n + %d/100*n*d + %d = %d B", rp.Family, c.n, c.depth, c.decAlloc, c.encAlloc, total, ka, kd, Ca, boundAlloc), rp)
 		return false
 	}
 	if c.retained > boundRet {
@@ -437,23 +469,27 @@ func TestCheck(t *testing.T) {
 		for _, s := range names {
 			fmt.Println(s)
 		}
-		// proposed per-family constants: 4x the worst measured ratio
+		// proposed per-family constants {ka, kd (hundredths), kr}: 4x the measured coefficients.  For families whose depth
+		// grows with n the per-level coefficient is read at the largest size and the linear one is what remains at any size.
 		for _, f := range families {
 			var ka, kd, kr float64
-			for _, n := range sizes {
-				c := measure(f.fam, f.build(n))
-				t := float64(c.decAlloc + c.encAlloc - 4096)
-				if t < 0 {
-					t = 0
+			cs := make([]cost, len(sizes))
+			for i, n := range sizes {
+				cs[i] = measure(f.fam, f.build(n))
+			}
+			if f.deepening {
+				l := cs[len(cs)-1]
+				kd = float64(l.decAlloc+l.encAlloc) / float64(l.n) / float64(l.depth)
+				if kd*float64(l.depth) < 8 { // no per-level term to speak of
+					kd = 0
 				}
-				if f.deepening {
-					kd = max(kd, t/float64(c.n)/float64(c.depth))
-				} else {
-					ka = max(ka, t/float64(c.n))
-				}
+			}
+			for _, c := range cs {
+				t := float64(c.decAlloc+c.encAlloc-4096) - kd*float64(c.n)*float64(c.depth)
+				ka = max(ka, t/float64(c.n))
 				kr = max(kr, float64(c.retained-2048)/float64(c.n))
 			}
-			fmt.Printf("\t%q: {%d, %d, %d},\n", f.name, int64(4*ka)+64, int64(4*kd)+4, int64(4*kr)+16)
+			fmt.Printf("\t%q: {%d, %d, %d},\n", f.name, int64(4*ka)+64, int64(400*kd+0.99), int64(4*kr)+16)
 		}
 		return
 	}
